@@ -145,3 +145,32 @@ func RandChunks(r *gen.Rand, n int) []int {
 	}
 	return c
 }
+
+// ClearReservedPMT clears a PRNG-chosen subset of the reserved bits of a program map section (fixed header and
+// elementary-stream entries; receivers ignore them, multiplexers do not all set them) and writes the CRC_32 that
+// belongs to the changed bytes. It reports how many bits it cleared.
+func ClearReservedPMT(sec []byte, r *gen.Rand) int {
+	if len(sec) < 16 {
+		return 0
+	}
+	n := 0
+	clr := func(i int, mask byte) {
+		m := mask & r.Byte()
+		for b := m & sec[i]; b != 0; b &= b - 1 {
+			n++
+		}
+		sec[i] &^= m
+	}
+	clr(1, 0x30)
+	clr(5, 0xc0)
+	clr(8, 0xe0)
+	clr(10, 0xf0)
+	at := 12 + (int(sec[10]&0x0f)<<8 | int(sec[11]))
+	for at+5 <= len(sec)-4 {
+		clr(at+1, 0xe0)
+		clr(at+3, 0xf0)
+		at += 5 + (int(sec[at+3]&0x0f)<<8 | int(sec[at+4]))
+	}
+	copy(sec[len(sec)-4:], BE32(CRC32MPEG2(sec[:len(sec)-4])))
+	return n
+}
